@@ -66,7 +66,7 @@ def observe(image: bytes, kind: str, work: str) -> Dict[str, Any]:
     return obs
 
 
-def sites_for(kind: str, offs, image: bytes, entry: int, all_values: bool, rng) -> List[faults.Site]:
+def sites_for(kind: str, offs, image: bytes, entry: int, all_values: bool, rng, type_sweep_entry: int = -1) -> List[faults.Site]:
     """one site per byte of the entry (AKAI: the 24-byte file entry; Roland: 32-byte directory + 48-byte parameter record)"""
     if kind == "akai":
         ranges = [(offs[entry], 24)]
@@ -92,6 +92,11 @@ def sites_for(kind: str, offs, image: bytes, entry: int, all_values: bool, rng) 
     repl = [enc(x) for j, x in enumerate(names) if j != entry] + [enc(names[3][:-1] + "L"), enc(names[3][:-2] + " L")]
     sites.append(faults.Site(f"entry{entry}.byte0", [ranges[0][0] + k for k in range(n)], n, faults.uniq(repl)))
     if kind == "akai":
+        # the type byte over its whole domain (one entry per run, chosen by the seed) or over the known type codes and their
+        # neighbours: a known type without a parser (drum, QL, effect) is a different path from an unknown type
+        known = (0x64, 0x70, 0x71, 0x73, 0x78, 0xF0, 0xF3)
+        tvals = range(256) if (all_values or entry == type_sweep_entry) else sorted({(v + d) & 0xFF for v in known for d in (-1, 0, 1)})
+        sites.append(faults.Site(f"entry{entry}.byte16", [ranges[0][0] + 16], 1, [v for v in tvals if v != image[ranges[0][0] + 16]], keep=True))
         # whole size field (3 bytes): sizes below / at / just above the 140-byte sample header
         sites.append(faults.Site(f"entry{entry}.byte17", [ranges[0][0] + 17 + k for k in range(3)], 3,
                                  [v.to_bytes(3, "little") for v in (0, 1, 100, 112, 139, 140, 141)]))
@@ -111,10 +116,10 @@ def run(chk: Check):
                 "(24 / 32+48 bytes) set to each value of a class set incl. the sibling's byte (quick) or all 255 other values (thorough), plus "
                 "TLC-simulated multi-byte damage confined to the entry; after each damage ls of the directory and export are compared with "
                 "the undamaged run restricted to the other entries; non-trivial = every case; distinct = (image kind, entry, fault set)")
-    chk.run_tlc("Scans", tlc.cfg_text(spec="Spec", constants=dict(TableScanRealigns=True, Kind="table", MaxSize=5 if thorough else 4, S=2, HeadLen=5),
+    chk.run_tlc("Scans", tlc.cfg_text(spec="Spec", constants=dict(TrimBacktracks=False, TableScanRealigns=True, Kind="table", MaxSize=5 if thorough else 4, S=2, HeadLen=5),
                                       invariants=["StepBound", "Aligned"], properties=["Terminates"]),
                 label="design: the file-table scan stays on entry boundaries after failed parses")
-    r = chk.run_tlc("Scans", tlc.cfg_text(spec="Spec", constants=dict(TableScanRealigns=False, Kind="table", MaxSize=3, S=2, HeadLen=5),
+    r = chk.run_tlc("Scans", tlc.cfg_text(spec="Spec", constants=dict(TrimBacktracks=False, TableScanRealigns=False, Kind="table", MaxSize=3, S=2, HeadLen=5),
                                           invariants=["Aligned"]), expect_ok=False, label="sensitivity: no re-alignment must be refuted")
     chk.extra["spec_mutants_killed"] = {"TableScanRealigns": not r.ok}
     if r.ok:
@@ -128,13 +133,13 @@ def run(chk: Check):
             if base["err"] or base["names"][-len(names):] != names or any(prefix + n + ".wav" not in base["audio"] for n in names):
                 raise tlc.TlcError(f"baseline of the {kind} image is not as generated: {base['err']} {base['names']}")
             for entry in range(len(names)):
-                sites = sites_for(kind, offs, image, entry, thorough and kind == "akai" and entry < 2, rng)
+                sites = sites_for(kind, offs, image, entry, thorough and kind == "akai" and entry < 2, rng, type_sweep_entry=chk.seed % len(names))
                 nvals = [len(s.values) for s in sites]
                 fs = [c["faults"] for c in chk.run_model(fault_model(nvals, 1), label=f"faults: every byte x value of {kind} entry {entry}").cases]
                 multi = [c["faults"] for c in chk.run_model(fault_model(nvals, 4), simulate=f"num={20 if thorough else 5}", depth=6, seed=chk.seed + entry,
                                                             workers=2, label=f"faults: simulated multi-byte damage of {kind} entry {entry}").cases
                          if len(c["faults"]) > 1]
-                whole = [x for x in fs if sites[x[0][0] - 1].width > 1]
+                whole = [x for x in fs if sites[x[0][0] - 1].width > 1 or getattr(sites[x[0][0] - 1], "keep", False)]
                 if not thorough:
                     fs = whole + fs[:: max(1, len(fs) // (70 if kind == "akai" else 40))]
                     multi = multi[:25]
@@ -253,5 +258,5 @@ def replay(chk: Check, path: str):
             chk.agree()
     finally:
         shutil.rmtree(work, ignore_errors=True)
-    chk.run_tlc("Scans", tlc.cfg_text(spec="Spec", constants=dict(TableScanRealigns=True, Kind="table", MaxSize=3, S=2, HeadLen=5), invariants=["Aligned"]),
+    chk.run_tlc("Scans", tlc.cfg_text(spec="Spec", constants=dict(TrimBacktracks=False, TableScanRealigns=True, Kind="table", MaxSize=3, S=2, HeadLen=5), invariants=["Aligned"]),
                 label="design (replay context)")
